@@ -236,7 +236,7 @@ Theorem reuse_has_effective_text c pre x :
      fst (get_command (resolve_config (s_config y)) (ts_cmds (s_src y)))
      = fst (get_command (resolve_config (s_config x)) (ts_cmds (s_src x)))).
 Proof.
-  intros Hr. destruct (cached_only_from_passing_run c pre x Hr) as (pre1 & y & post1 & -> & Hy & Hk & Ha).
+  intros Hr. destruct (cached_only_from_passing_run c pre x Hr) as [(pre1 & y & post1 & -> & Hy & Hk & Ha) _].
   exists pre1, y, post1; repeat split; auto.
   intros Hrule. unfold s_def in Hk. rewrite !runtime_key_effective, Hrule in Hk.
   injection Hk as Hk _. exact (app_inv_head _ _ _ Hk).
